@@ -57,7 +57,10 @@ class Gen:
                 ft = self.gen_type(depth - 1)
                 if r.random() < 0.12:
                     ft = ("box", r.choice([("int", "i32"), ("string",), ("bool",), ("int", "i64")]))
-                fields.append(("f%d" % i if r.random() < 0.7 else r.choice(["name", "age", "items", "id", "kind"]) + str(i), ft))
+                fn_ = "f%d" % i if r.random() < 0.7 else r.choice(["name", "age", "items", "id", "kind"]) + str(i)
+                if r.random() < 0.06 and not any(f[0].startswith("r#") for f in fields):
+                    fn_ = r.choice(["r#type", "r#match", "r#fn", "r#struct"])   # a raw identifier (a keyword as a field name)
+                fields.append((fn_, ft))
             self.structs[name] = fields
             return ("struct", name)
         if k == "enum":
@@ -380,10 +383,26 @@ class PatGen:
     def lit(self, v, t):
         k = t[0]
         if k == "int":
-            return "%d" % v[1] if v[1] >= 0 else "-%d" % -v[1]
+            # spelling variety: type suffix, digit separators, zero prefix, hexadecimal (the value is the same)
+            c = self.rng.random() if getattr(self, "spellings", True) else 1.0
+            a = abs(v[1])
+            if c < 0.05 and t[1] in ("i32", "u8", "i64", "usize"):
+                body = "%d%s" % (a, t[1])
+            elif c < 0.09:
+                body = "%d_%03d" % (a // 1000, a % 1000) if a >= 1000 else "%d_" % a
+            elif c < 0.12:
+                body = "0x%X" % a
+            elif c < 0.14 and a < 10:
+                body = "0%d" % a
+            else:
+                body = "%d" % a
+            return body if v[1] >= 0 else "-" + body
         if k == "bool":
             return "true" if v[1] else "false"
         if k in ("string", "strref"):
+            # raw-string spellings where the content allows them
+            if getattr(self, "spellings", True) and self.rng.random() < 0.12 and not any(ch in v[1] for ch in '"\\\n\r\t') and v[1].isprintable():
+                return ('r"%s"' if self.rng.random() < 0.6 else 'r#"%s"#') % v[1]
             return rust_str(v[1])
         if k == "char":
             return rust_chr(v[1])
@@ -575,11 +594,12 @@ class PatGen:
             self.mval(e, v)
             return "== " + e
         if k == "option":
+            q = "Option::" if getattr(self, "spellings", True) and r.random() < 0.08 else ""
             if v[1] == "None":
                 self.use("unit-variant")
-                return "None"
+                return q + "None"
             self.use("enum-tuple")
-            return "Some(%s)" % self.pat(v[3][0], t[1], depth + 1)
+            return q + "Some(%s)" % self.pat(v[3][0], t[1], depth + 1)
         if k == "result":
             self.use("enum-tuple")
             return "%s(%s)" % (v[1], self.pat(v[3][0], t[1] if v[1] == "Ok" else t[2], depth + 1))
@@ -597,6 +617,8 @@ class PatGen:
         if k == "enum":
             vn, vk, pl = [x for x in self.g.enums[t[1]] if x[0] == v[1]][0]
             path = "%s::%s" % (t[1], vn)
+            if getattr(self, "spellings", True) and r.random() < 0.08:
+                path = "self::" + path
             if vk == "unit":
                 self.use("unit-variant")
                 return path
@@ -658,6 +680,8 @@ class PatGen:
             self.use("wildcard-struct")
             return "_ { %s }" % ", ".join(parts + [".."])
         self.use("struct" + ("-rest" if rest else ""))
+        if not rest and parts and getattr(self, "spellings", True) and r.random() < 0.08:
+            return "%s { %s, }" % (path, ", ".join(parts))
         if rest:
             if not parts:
                 # `T { .. }` expands to invalid Rust on the pinned tree (known finding C14); keep one field
@@ -674,7 +698,8 @@ class PatGen:
             return self.set_pat(vs, t[1], depth)
         if c < 0.55 or not vs:
             self.use("slice-exact")
-            return "[%s]" % ", ".join(self.pat(x, t[1], depth + 1) for x in vs)
+            tc = "," if vs and getattr(self, "spellings", True) and r.random() < 0.08 else ""
+            return "[%s%s]" % (", ".join(self.pat(x, t[1], depth + 1) for x in vs), tc)
         a = r.randint(0, len(vs))
         b = r.randint(a, len(vs))
         self.use("slice-rest")
